@@ -370,3 +370,247 @@ M.contract(P_ACC + ':AccessorResolver.resolve',
                     and same_object(calls(trace, '_handling_setup')[0][0]['explicit_suite_file_path'],
                                     explicit_suite_file_path)},
            raises_only=())
+
+
+# ============================================================================ the suite route
+
+HIERARCHY = Inst(structure.TestSuiteHierarchy,
+                 _TestSuiteHierarchy__source_file=Any_,
+                 _TestSuiteHierarchy__suite_file_inclusions_leading_to_this_file=Any_,
+                 _TestSuiteHierarchy__test_case_handling_setup=HANDLING_SETUP,
+                 _TestSuiteHierarchy__sub_test_suites=Any_,
+                 _TestSuiteHierarchy__test_cases=Any_)
+READER_ENV = Inst(suite_hierarchy_reading.Environment, _tuple=[Any_, HANDLING_SETUP, Any_])
+READER = Inst(suite_hierarchy_reading._SingleFileReader, environment=READER_ENV, _root_suite_file_path=PATH,
+              _visited=Any_)
+
+# Which files a suite lists is C16; here only: how many sub-suites / cases are listed does not matter for how
+# each is read.  BOUNDED in the number of listed files (0..2 sub-suites, 0..1 cases): `map` applies the same
+# reader to every element.
+M.contract(P_SHR + ':_SingleFileReader._resolve_paths', trusted=True,
+           params=dict(self=Any_, test_suite=Any_, suite_file_path=Any_),
+           returns=Union(FixedList(FixedList(), FixedList(), as_tuple=True),
+                         FixedList(FixedList(FILE_IN_DIR), FixedList(FILE_IN_DIR), as_tuple=True),
+                         FixedList(FixedList(FILE_IN_DIR, FILE_IN_DIR), FixedList(), as_tuple=True)),
+           may_raise=(SuiteReadError,))
+M.trust('_SingleFileReader._resolve_paths returns the listed sub-suite and case files (C16); the proof of __call__ '
+        'is bounded to 0..2 listed sub-suites / 0..1 cases (every element is treated alike by `map`)')
+
+
+def sub_suite_reads(trace):
+    return calls(trace, '__call__')
+
+
+M.contract(P_SHR + ':_SingleFileReader.__call__',
+           params=dict(self=READER, inclusions=FixedList(), suite_file_path=PATH),
+           returns=HIERARCHY, event='__call__', may_raise=(SuiteReadError,),
+           old=lambda self: (self.environment, self.environment.default_test_case_handling_setup),
+           ensures={
+               'handling setup: from THIS suite file and the environment default': (
+                   lambda self, suite_file_path, result, trace:
+                   setup_resolved_from(trace, suite_file_path, self.environment.configuration_section_parser,
+                                       self.environment.test_case_parsing_setup,
+                                       self.environment.default_test_case_handling_setup,
+                                       result.test_case_handling_setup), 'check-only'),
+               'sub-suites are read by this same reader: nothing of this suite\'s setup is passed down': (
+                   lambda self, inclusions, suite_file_path, result, trace, old:
+                   all(a['self'] is self and len(a) == 3 and a['inclusions'] == inclusions + [suite_file_path]
+                       for (a, r) in sub_suite_reads(trace))
+                   and self.environment is old[0]
+                   and self.environment.default_test_case_handling_setup is old[1], 'check-only'),
+               'the sub-suites of the result are what these reads returned': (
+                   lambda result, trace: len(result.sub_test_suites) == len(sub_suite_reads(trace))
+                   and all(s is r for (s, (a, r)) in zip(result.sub_test_suites, sub_suite_reads(trace))),
+                   'check-only'),
+           },
+           raises_only=())
+
+# ---- the configuration of the cases of a suite
+
+PROC_CONFIGURATION = Inst(processors.Configuration, default_handling_setup=HANDLING_SETUP, os_services=Any_,
+                          test_case_definition=Any_, mem_buff_size=Int, is_keep_sandbox=Bool,
+                          exe_atc_and_skip_assertions=Opt(Any_), sandbox_root_dir_resolver=Any_)
+SUITES_EXECUTOR = Inst(suite_processing.SuitesExecutor, _reporter=Any_, _default_case_configuration=PROC_CONFIGURATION,
+                       _test_case_processor_constructor=Any_)
+
+M.contract(P_SUITE + ':SuitesExecutor._configuration_for_cases_in_suite',
+           params=dict(self=SUITES_EXECUTOR, suite=HIERARCHY), inline=True,
+           ensures={
+               'handling setup of the suite that lists the case': lambda suite, result:
+               result.default_handling_setup is suite.test_case_handling_setup,
+               'everything else as for every other case of the run': lambda self, result:
+               result.test_case_definition is self._default_case_configuration.test_case_definition
+               and result.os_services is self._default_case_configuration.os_services
+               and result.mem_buff_size == self._default_case_configuration.mem_buff_size
+               and result.is_keep_sandbox == self._default_case_configuration.is_keep_sandbox
+               and result.sandbox_root_dir_resolver is self._default_case_configuration.sandbox_root_dir_resolver
+               and result.exe_atc_and_skip_assertions is None,
+               'a new configuration object': lambda self, result: result is not self._default_case_configuration,
+           },
+           raises_only=())
+
+
+# ============================================================================ from a handling setup to a processor
+# Both routes hand the parts of the handling setup to the same constructors.
+
+from exactly_lib.execution.configuration import PredefinedProperties, ExecutionConfiguration
+from exactly_lib.processing.standalone import processor as standalone_processor, result_reporting
+from exactly_lib.util.symbol_table import SymbolTable
+
+P_STANDALONE = 'exactly_lib.processing.standalone.processor'
+
+PREDEFINED = Inst(PredefinedProperties, _default_environ_getter=Any_, _environ=c04.ENVIRON,
+                  _timeout_in_seconds=Opt(Int), _predefined_symbols=Iface(c04.SymbolTableI))
+TC_DEFINITION = Inst(processors.TestCaseDefinition, _test_case_parsing_setup=Any_, _predefined_properties=PREDEFINED)
+PROC_CONFIGURATION_FULL = Inst(processors.Configuration, default_handling_setup=HANDLING_SETUP, os_services=Any_,
+                               test_case_definition=TC_DEFINITION, mem_buff_size=Int, is_keep_sandbox=Bool,
+                               exe_atc_and_skip_assertions=Opt(Any_), sandbox_root_dir_resolver=Any_)
+
+
+def exe_conf_of(ec, predefined, os_services, resolver, mem_buff_size, exe_atc):
+    """the execution configuration carries exactly the predefined properties and these values"""
+    return (ec.default_environ_getter is predefined.default_environ_getter
+            and same_object(ec.environ, predefined.environ)
+            and ec.timeout_in_seconds == predefined.timeout_in_seconds
+            and ec.predefined_symbols is predefined.predefined_symbols
+            and ec.os_services is os_services and ec.sds_root_dir_resolver is resolver
+            and ec.mem_buff_size == mem_buff_size and same_object(ec.exe_atc_and_skip_assertions, exe_atc))
+
+
+M.contract(P_PROC + ':Configuration.execution_configuration', params=dict(self=PROC_CONFIGURATION_FULL), inline=True,
+           ensures={'predefined properties and the values of the configuration': lambda self, result:
+           exe_conf_of(result, self.test_case_definition.predefined_properties, self.os_services,
+                       self.sandbox_root_dir_resolver, self.mem_buff_size, self.exe_atc_and_skip_assertions)},
+           raises_only=())
+
+
+def executor_of(x, act_phase_setup, is_keep_sandbox):
+    return (type(x) is processors._Executor and x.default_act_phase_setup is act_phase_setup
+            and x._is_keep_sandbox == is_keep_sandbox)
+
+
+def accessor_of(a, handling_setup, parsing_setup):
+    return (type(a) is processing_utils.AccessorFromParts and a._pre_processor is handling_setup.preprocessor
+            and a._transformer is handling_setup.transformer
+            and a._parser._test_case_parsing_setup is parsing_setup)
+
+
+M.contract(P_PROC + ':new_processor_that_should_not_pollute_current_process',
+           params=dict(configuration=PROC_CONFIGURATION_FULL), inline=True,
+           ensures={
+               'accessor: preprocessor, parsing setup, transformer of the configured handling setup':
+                   lambda configuration, result:
+                   accessor_of(result._accessor, configuration.default_handling_setup,
+                               configuration.test_case_definition.parsing_setup),
+               'executor: actor of the configured handling setup, keep flag, execution configuration':
+                   lambda configuration, result:
+                   executor_of(result._executor, configuration.default_handling_setup.act_phase_setup,
+                               configuration.is_keep_sandbox)
+                   and exe_conf_of(result._executor._exe_conf, configuration.test_case_definition.predefined_properties,
+                                   configuration.os_services, configuration.sandbox_root_dir_resolver,
+                                   configuration.mem_buff_size, configuration.exe_atc_and_skip_assertions),
+           },
+           raises_only=())
+
+
+def _mk_reporter(interp, name):
+    r = object.__new__(result_reporting._ResultReporterForNormalOutput)
+    r._reporting_environment = Any_.make(interp, name + '.env')
+    return r
+
+
+STANDALONE_PROCESSOR = Inst(standalone_processor.Processor, _test_case_definition=TC_DEFINITION, _os_services=Any_,
+                            _suite_configuration_section_parser=Any_, _mem_buff_size=Int)
+
+M.contract(P_STANDALONE + ':Processor._executor',
+           params=dict(self=STANDALONE_PROCESSOR, act_phase_setup=Any_, is_keep_sandbox=Bool,
+                       sandbox_root_dir_resolver=Any_, result_reporter=Custom(_mk_reporter)), inline=True,
+           ensures={'executor: the given actor and keep flag, the predefined properties': lambda self, act_phase_setup, is_keep_sandbox, sandbox_root_dir_resolver, result:
+           executor_of(result, act_phase_setup, is_keep_sandbox)
+           and exe_conf_of(result._exe_conf, self._test_case_definition.predefined_properties, self._os_services,
+                           sandbox_root_dir_resolver, self._mem_buff_size, None)},
+           raises_only=())
+
+
+def harness_standalone_and_suite_build_the_same(tcd, os_services, suite_conf_parser, mem_buff_size, handling_setup,
+                                                 resolver, reporter):
+    """Given the SAME resolved handling setup (both routes obtain it from resolve_test_case_handling_setup of the
+    same suite document and default -- proved above) the suite route and the standalone route (normal reporting)
+    build processors with equal parts."""
+    # the suite route: SuitesExecutor._configuration_for_cases_in_suite + the processor constructor of the suite run
+    in_suite = processors.new_processor_that_should_not_pollute_current_process(
+        processors.Configuration(tcd, handling_setup, os_services, mem_buff_size, False, resolver))
+    # the standalone route: standalone Processor._processor after AccessorResolver.resolve
+    alone = standalone_processor.Processor(tcd, os_services, suite_conf_parser, mem_buff_size)
+    accessor = processors.new_accessor(handling_setup.preprocessor, tcd.parsing_setup, handling_setup.transformer)
+    executor = alone._executor(handling_setup.act_phase_setup, reporter.depends_on_result_in_sandbox(), resolver,
+                               reporter)
+    a1, a2 = in_suite._accessor, accessor
+    e1, e2 = in_suite._executor, executor
+    c1, c2 = e1._exe_conf, e2._exe_conf
+    return (a1._pre_processor is a2._pre_processor and a1._transformer is a2._transformer
+            and a1._parser._test_case_parsing_setup is a2._parser._test_case_parsing_setup
+            and type(a1._source_reader) is type(a2._source_reader)
+            and e1.default_act_phase_setup is e2.default_act_phase_setup
+            and e1._is_keep_sandbox == e2._is_keep_sandbox
+            and c1.default_environ_getter is c2.default_environ_getter and same_object(c1.environ, c2.environ)
+            and c1.timeout_in_seconds == c2.timeout_in_seconds and c1.os_services is c2.os_services
+            and c1.sds_root_dir_resolver is c2.sds_root_dir_resolver and c1.mem_buff_size == c2.mem_buff_size
+            and c1.predefined_symbols is c2.predefined_symbols
+            and c1.exe_atc_and_skip_assertions is None and c2.exe_atc_and_skip_assertions is None)
+
+
+M.contract('contracts.C17_independence:harness_standalone_and_suite_build_the_same',
+           params=dict(tcd=TC_DEFINITION, os_services=Any_, suite_conf_parser=Any_, mem_buff_size=Int,
+                       handling_setup=HANDLING_SETUP, resolver=Any_, reporter=Custom(_mk_reporter)),
+           ensures={'equal parts': lambda result: result}, raises_only=())
+
+
+# ============================================================================ nothing carries over between cases
+
+def harness_two_cases_share_nothing_mutable(executor):
+    """two successive `apply`s of the one _Executor of a run: each gets its own environ dict and symbol table,
+    and neither is the configured one"""
+    first = executor._exe_conf_that_may_be_updated()
+    second = executor._exe_conf_that_may_be_updated()
+    configured = executor._exe_conf
+    env_ok = ((first.environ is None and second.environ is None) if configured.environ is None
+              else (is_fresh_copy(first.environ, configured.environ) and is_fresh_copy(second.environ, configured.environ)
+                    and first.environ is not second.environ))
+    return (env_ok
+            and first.predefined_symbols is not second.predefined_symbols
+            and first.predefined_symbols is not configured.predefined_symbols
+            and second.predefined_symbols is not configured.predefined_symbols
+            and first is not second)
+
+
+M.contract('contracts.C17_independence:harness_two_cases_share_nothing_mutable',
+           params=dict(executor=c04.PROC_EXECUTOR),
+           ensures={'fresh environ and symbols for every case': lambda result: result},
+           raises_only=())
+
+# every case is executed with a configuration of its own
+M.contract('exactly_lib.execution.full_execution.execution:execute', trusted=True,
+           params=dict(conf=Any_, configuration_builder=Any_, is_keep_sandbox=Bool, test_case=Any_),
+           returns=Any_, event='full-execution', may_raise=(c04.ArbitraryExecutionError,))
+M.trust('full_execution.execute: its behaviour is C01/C02/C03; here only the arguments it is called with')
+
+from exactly_lib.processing.act_phase import ActPhaseSetup
+
+PROC_EXECUTOR_W_ACTOR = Inst(processors._Executor, default_act_phase_setup=Inst(ActPhaseSetup, _tuple=[Str, Any_]),
+                             _is_keep_sandbox=Bool, _exe_conf=c04.EXE_CONF)
+
+M.contract(P_PROC + ':_Executor.apply',
+           params=dict(self=PROC_EXECUTOR_W_ACTOR, test_case_file_path=FILE_IN_DIR, test_case=Any_),
+           raises={c04.ArbitraryExecutionError: {}},
+           ensures={'executed with a fresh execution configuration, the configured actor and keep flag': lambda self, test_case, trace:
+           len(calls(trace, 'full-execution')) == 1
+           and calls(trace, 'full-execution')[0][0]['conf'] is not self._exe_conf
+           and ((calls(trace, 'full-execution')[0][0]['conf'].environ is None) if self._exe_conf.environ is None
+                else is_fresh_copy(calls(trace, 'full-execution')[0][0]['conf'].environ, self._exe_conf.environ))
+           and calls(trace, 'full-execution')[0][0]['conf'].predefined_symbols is not self._exe_conf.predefined_symbols
+           and calls(trace, 'full-execution')[0][0]['test_case'] is test_case
+           and calls(trace, 'full-execution')[0][0]['is_keep_sandbox'] == self._is_keep_sandbox
+           and calls(trace, 'full-execution')[0][0]['configuration_builder'].actor
+           == self.default_act_phase_setup.actor_nav},
+           raises_only=())
